@@ -227,6 +227,26 @@ def run(ctx):
                 c = app(path, cyc, g=g_, env=e_, cfg=cfg_, disk=True, kind='%s maxdepth=%d via %s on a cyclic book' % (' '.join(path), depth, src), exact=False)
                 c.meta['style'] = 'deep'
                 cases.append(c)
+    # date layouts whose separators are a backslash, a quote, a brace, a per-cent sign
+    for lay, d1 in (('02\\01\\2006', '24\\01\\2021'), ('2006"01"02', '2021"01"24'), ('2006{{01}}02', '2021{{01}}24'), ('2006%01%02', '2021%01%24'), ("2006'01'02", "2021'01'24"), ('2006`01`02', '2021`01`24')):
+        lfiles = {b'food.yaml': b'a:\n  calories: 1\n', b'log.yaml': d1.encode() + b':\n  a: 1\n'}
+        for path, args in ((['summary'], (d1,)), (['reg'], ()), (['print'], ()), (['stats'], ()), (['csv', 'log'], ()), (['bal'], ())):
+            for src in ('flag', 'env'):
+                c = app(path, lfiles, args=args, g=dict({'today': d1}, **({'dateFormat': lay} if src == 'flag' else {})), env={'dateFormat': lay} if src == 'env' else {},
+                        kind='%s with the date layout %s' % (' '.join(path), lay), disk=(path == ['stats']), exact=False)
+                c.meta['style'] = 'odd date layout'
+                cases.append(c)
+    # settings that are present but empty (an exported variable without a value, -d '')
+    efiles = {b'food.yaml': b'a:\n  calories: 1\n', b'log.yaml': b'2021/01/24:\n  a: 1\n'}
+    for key in ('database', 'logfile', 'dateFormat', 'config'):
+        for path, args in ((['reg'], ()), (['print'], ()), (['lint'], ('log.yaml',)), (['bal'], ()), (['csv', 'log'], ())):
+            for where in ('env', 'flag'):
+                if where == 'flag' and key == 'maxdepth':
+                    continue
+                c = app(path, efiles, args=args, env={key: ''} if where == 'env' else {}, g={key: ''} if where == 'flag' else {},
+                        kind='%s with an empty %s (%s)' % (' '.join(path), key, where), disk=(path == ['stats']), exact=False)
+                c.meta['style'] = 'empty setting'
+                cases.append(c)
     # category paths far deeper than any indentation anyone planned for
     for depth in (16, 17, 18, 33, 64, 100, 101, 102, 150, 300):
         deep_name = '/'.join('l%d' % (i % 7) for i in range(depth)).encode()
